@@ -234,7 +234,7 @@ struct C06 : Scenario {
 			const Inode &n = initial.nodes[ino];
 			if (path != cwd) {
 				MNode m;
-				m.type = n.type; m.original = true;
+				m.type = n.type; m.original = true; m.target = n.target;
 				m.orig_dump = strf("%c %o %lld %zu:%04x %s", n.type, n.mode, (long long) n.mtime, n.data.size(), crc16_bitwise(n.data), n.target.c_str());
 				M.tree[path] = m;
 			}
@@ -299,8 +299,34 @@ struct C06 : Scenario {
 				} else { l.type = 'l'; l.check_target = true; l.target = m.gtarget; M.tree[out] = l; }
 				continue;
 			}
-			// file
-			bool exists = M.tree.count(out) != 0;
+			// file: "exists" is what stat() says, i.e. symbolic links are followed (a dangling link does not count as an
+			// existing file and is replaced without asking)
+			bool exists = false;
+			{
+				std::string cur = out;
+				for (int hops = 0; hops < 8; ++hops) {
+					auto it = M.tree.find(cur);
+					if (it == M.tree.end()) break;
+					if (it->second.type == 'l' && (it->second.check_target || it->second.original)) {
+						std::string tg = it->second.check_target ? it->second.target : it->second.target;
+						if (tg.empty() || tg[0] == '/') { cur = tg; }
+						else {
+							// lexical resolution relative to the link's directory
+							std::vector<std::string> parts;
+							for (auto &cc : split_ch(cur.substr(0, cur.rfind('/')) + "/" + tg, '/')) {
+								if (cc.empty() || cc == ".") continue;
+								if (cc == "..") { if (!parts.empty()) parts.pop_back(); continue; }
+								parts.push_back(cc);
+							}
+							cur.clear();
+							for (auto &cc : parts) cur += "/" + cc;
+						}
+						continue;
+					}
+					exists = true;
+					break;
+				}
+			}
 			bool write = true;
 			if (cli && exists) {
 				M.interesting = true;
